@@ -246,6 +246,30 @@ def main():
                 rac.exhaustive = False
                 break
             run_one(rac, list(hist))
+    rac.section("freeze-sequences", "every sequence of <= 4 freeze_tree / unfreeze_tree calls (balanced or not) on a manager with one definition: "
+                "the manager is frozen exactly when the LAST call was freeze_tree -- graph-changing calls raise ValueError then and succeed "
+                "otherwise; plain-value assignments propagate in both cases", "30 sequences")
+    for n in range(1, 5):
+        for seq in itertools.product(("freeze", "unfreeze"), repeat=n):
+            src = ["import xdeps", "d = {'a': 1.0, 'b': 0.0, 'zz': 0.0}", "m = xdeps.Manager(); r = m.ref(d, 'd')", "r['b'] = r['a'] * 2"] + \
+                  [f"m.{c}_tree()" for c in seq]
+            want_frozen = seq[-1] == "freeze"
+            tail = ["r['a'] = 5.0", "assert d['b'] == 10.0, d",
+                    "try:\n    r['zz'] = r['a'] + 1\n    changed = True\nexcept ValueError:\n    changed = False",
+                    f"assert changed == {not want_frozen}, ('graph change accepted', changed, 'frozen flag', m._tree_frozen)",
+                    f"assert bool(m._tree_frozen) == {want_frozen}"]
+            key = "freeze-sequence " + " ".join(seq)
+            scr = "\n".join(src + tail) + "\n"
+            rac.case(key, sample=dict(sequence=list(seq), expect_frozen=want_frozen))
+            env = {}
+            try:
+                exec("\n".join(src + tail[:3]), env)
+            except Exception as ex:      # noqa
+                rac.fail(key, f"C17 {' '.join(seq)}: raised {type(ex).__name__}: {ex}", scr, "Manager.freeze_tree")
+                continue
+            if env["changed"] != (not want_frozen) or bool(env["m"]._tree_frozen) != want_frozen:
+                rac.fail(key, f"C17 after {' , '.join(seq)}: a new definition is {'accepted' if env['changed'] else 'refused'} "
+                         f"(frozen flag {env['m']._tree_frozen!r}); the last call was {seq[-1]}_tree", scr, "Manager.unfreeze_tree")
     rac.section("random", "random histories of length 4..10, same checks", "40 quick / 600 thorough", exhaustive=False)
     for _ in range(40 if quick else 600):
         if rac.out_of_time(0.95):
